@@ -20,7 +20,9 @@ let () =
           | "R" :: h :: _ ->
             (match run_limits_json (unhex h) with
              | None -> "P;;"
-             | Some l -> "R " ^ String.concat "," (List.map hex l))
+             | Some l ->
+               let lim = function Unlimited -> "u" | Limited v -> string_of_z v in
+               "R " ^ String.concat "," (List.map (fun (n, ((s, h), u)) -> Printf.sprintf "%s:%s:%s:%s" (hex n) (lim s) (lim h) (hex u)) l))
           | "E" :: spec :: mods :: _ ->
             (* E c1:m1+m2,c2:m1 m1,m2,m3   (ASCII tokens) *)
             let bytes_of (t : string) : z list = List.init (String.length t) (fun i -> z_of_int (Char.code t.[i])) in
